@@ -453,6 +453,12 @@ class Cursor:
                         outs.append(("return", s, v))
                     elif v and v[0] == "tag":
                         outs.append(("normal", s, None))
+                    elif v and v[0] == "opt_at":
+                        # `self.peek(k)?`: None is the end of the input (nothing there to step over), otherwise the character at k
+                        eof = s.learn(v[1], "N")
+                        if eof is not None:
+                            outs.append(("return", eof, ("tag", "None")))
+                        outs.append(("normal", s, ("at", v[1])))
                     else:
                         outs.append(("return", s.copy(), ("tag", "None")))
                         outs.append(("normal", s, None))
